@@ -425,6 +425,8 @@ static void gen_items(void)
                     if (o->kind == K_ABST && vh_coin(25)) { it->noval = 1; it->sp = o->sh && vh_coin(50) ? SP_SHORT : SP_LONG; break; }
                     it->val = o->kind == K_INT ? gen_int() : PICK(STRV);
                     if (o->sh && vh_coin(50)) it->sp = vh_coin(50) ? SP_GLUED : SP_SHORT_SEP; else it->sp = vh_coin(50) ? SP_LONG_EQ : SP_LONG_SEP;
+                    /* --long= with nothing after the '=': the value of a string option is the empty string */
+                    if (o->kind == K_STR && vh_coin(7)) { it->val = ""; it->sp = SP_LONG_EQ; vh_count("wf_empty_long_eq_value", 1); }
                     break;
                 case K_ARGS:
                     it->nw = (int) vh_range(1, 4);
